@@ -302,7 +302,16 @@ impl ParsedValue {
         let keypath = rest.get(..next_split)?;
         let sep = rest[next_split..].chars().next()?;
         let after = rest.get(next_split + sep.len_utf8()..)?;
-        let target_key_path = Self::parse_key_path(keypath)?;
+        // a path that is not made of keys is a reference that cannot be resolved, not plain text:
+        // leaving it (and every later reference of the value) as text would hide the mistake.
+        let Some(target_key_path) = Self::parse_key_path(keypath) else {
+            return Some(Err(Error::UnexpectedToken {
+                locale: locale.clone(),
+                key_path: key_path.clone(),
+                message: format!("\"{}\" in `$t({})` is not a valid key path", keypath, keypath),
+            }
+            .into()));
+        };
 
         let (args, after) = if sep == ',' {
             nested_result_try!(Self::parse_foreign_key_args(
